@@ -96,9 +96,13 @@ Fixpoint subexprs (fuel : nat) (e : expr) : list expr :=
   end.
 Definition any_node (p : expr -> bool) (e : expr) : bool := existsb p (subexprs (size e) e).
 
-(* a Pow node with base E (single dispatch has no exp special case) *)
+(* a Pow node with base E reaches the evaluator (as a node, or as the get_args() form of a Mul
+   entry E**x): single dispatch has no exp special case *)
 Definition g_pow_E (e : expr) : bool :=
-  any_node (fun x => match x with EPow b _ => is_E b | _ => false end) e.
+  any_node (fun x => match x with
+                     | EPow b _ => is_E b
+                     | EMul _ d => existsb (fun p => is_E (fst p) && negb (is_int_one (snd p))) d
+                     | _ => false end) e.
 (* a Mul with the dictionary key E (the lambda evaluates it with pow) *)
 Definition g_mul_E (e : expr) : bool :=
   any_node (fun x => match x with EMul _ d => existsb (fun p => is_E (fst p)) d | _ => false end) e.
